@@ -194,12 +194,23 @@ func (c *compiler) evalFunctionLiteral(node *ast.FunctionLiteral) (interface{}, 
 	return &userFunction{Parameters: params, Block: block}, nil
 }
 
+// tolerated reports whether err is the one tolerated fault: an unknown
+// identifier, which counts as nil. The statement that raised it (it may sit in
+// the body of a user function) is forgotten again, so that a later failure of
+// the statement being evaluated is reported with its own line.
+func (c *compiler) tolerated(err error, stmt ast.Statement) bool {
+	if _, ok := err.(*ErrUnknownIdentifier); !ok {
+		return false
+	}
+	c.curStmt = stmt
+	return true
+}
+
 func (c *compiler) evalPrefixExpression(node *ast.PrefixExpression) (interface{}, error) {
+	stmt := c.curStmt
 	res, err := c.evalExpression(node.Right)
-	if err != nil {
-		if _, ok := err.(*ErrUnknownIdentifier); !ok {
-			return nil, err
-		}
+	if err != nil && !c.tolerated(err, stmt) {
+		return nil, err
 	}
 
 	switch node.Operator {
@@ -211,11 +222,10 @@ func (c *compiler) evalPrefixExpression(node *ast.PrefixExpression) (interface{}
 }
 
 func (c *compiler) evalIfExpression(node *ast.IfExpression) (interface{}, error) {
+	stmt := c.curStmt
 	con, err := c.evalExpression(node.Condition)
-	if err != nil {
-		if _, ok := err.(*ErrUnknownIdentifier); !ok {
-			return nil, err
-		}
+	if err != nil && !c.tolerated(err, stmt) {
+		return nil, err
 	}
 
 	if c.isTruthy(con) {
@@ -228,11 +238,10 @@ func (c *compiler) evalIfExpression(node *ast.IfExpression) (interface{}, error)
 func (c *compiler) evalElseAndElseIfExpressions(node *ast.IfExpression) (interface{}, error) {
 	var r interface{}
 	for _, eiNode := range node.ElseIf {
+		stmt := c.curStmt
 		eiCon, err := c.evalExpression(eiNode.Condition)
-		if err != nil {
-			if _, ok := err.(*ErrUnknownIdentifier); !ok {
-				return nil, err
-			}
+		if err != nil && !c.tolerated(err, stmt) {
+			return nil, err
 		}
 
 		if c.isTruthy(eiCon) {
@@ -457,8 +466,9 @@ func (c *compiler) evalIdentifier(node *ast.Identifier) (interface{}, error) {
 }
 
 func (c *compiler) evalInfixExpression(node *ast.InfixExpression) (interface{}, error) {
+	stmt := c.curStmt
 	lres, err := c.evalExpression(node.Left)
-	if err != nil && !c.isTolerableOperandError(node.Operator, err) {
+	if err != nil && !c.isTolerableOperandError(node.Operator, err, stmt) {
 		return nil, err
 	} // nil lres is acceptable only for '==', '!=', and logical operators
 
@@ -470,7 +480,7 @@ func (c *compiler) evalInfixExpression(node *ast.InfixExpression) (interface{}, 
 	}
 
 	rres, err := c.evalExpression(node.Right)
-	if err != nil && !c.isTolerableOperandError(node.Operator, err) {
+	if err != nil && !c.isTolerableOperandError(node.Operator, err, stmt) {
 		return nil, err
 	} // nil rres is acceptable only for '==', '!=', and logical operators
 
@@ -513,11 +523,10 @@ func (c *compiler) evalInfixExpression(node *ast.InfixExpression) (interface{}, 
 // may be treated as a nil operand: only an unknown identifier, and only for
 // '==', '!=', '&&' and '||'. Any other error (a failing helper, a bad index,
 // ...) must fail the expression.
-func (c *compiler) isTolerableOperandError(op string, err error) bool {
+func (c *compiler) isTolerableOperandError(op string, err error, stmt ast.Statement) bool {
 	switch op {
 	case "==", "!=", "||", "&&":
-		_, ok := err.(*ErrUnknownIdentifier)
-		return ok
+		return c.tolerated(err, stmt)
 	}
 	return false
 }
